@@ -10,7 +10,7 @@ analysis broken (exit 2), never a pass.
 """
 import itertools
 
-from ..astutil import kids, strip, int_value, render
+from ..astutil import kids, strip, int_value, render, walk
 from ..frontend import AnalysisBroken
 
 FLIP = {"<": ">", ">": "<", "=": "="}
@@ -87,7 +87,10 @@ class Comparator:
                     ini = [c for c in kids(d) if c["kind"] not in ("FullComment",)]
                     if ini:
                         i0 = strip(ini[0], casts=True)
-                        if i0["kind"] == "BinaryOperator" and i0.get("opcode") in ("-", "+", "*"):
+                        if i0["kind"] == "BinaryOperator" and i0.get("opcode") in ("-", "+", "*") and \
+                                (i0.get("opcode") == "*" or self._is_field(kids(i0)[0]) or self._is_field(kids(i0)[1]) or
+                                 any(y["kind"] == "BinaryOperator" and y.get("opcode") in ("-", "+", "*") and
+                                     (self._is_field(kids(y)[0]) or self._is_field(kids(y)[1])) for y in walk(i0))):
                             if not hasattr(self, "arith_locals"):
                                 self.arith_locals = {}
                             self.arith_locals[d["id"]] = ("%s decides by '%s %s = %s': the difference of two 64-bit keys "
@@ -95,6 +98,15 @@ class Comparator:
                                                           "widely separated keys compare wrongly"
                                                           % (self.func.name, d.get("type"), d.get("name"), render(i0)))
                             continue
+                    if ini and any(y["kind"] in ("ImplicitCastExpr", "CStyleCastExpr") and y.get("castKind") == "IntegralToFloating"
+                                   for y in walk(ini[0])) and self._is_field(ini[0]):
+                        # a 64-bit integer key squeezed through a floating type: keys further apart than 2^53 collapse
+                        if not hasattr(self, "arith_locals"):
+                            self.arith_locals = {}
+                        self.arith_locals[d["id"]] = ("%s compares the 64-bit integer key %s after converting it to %s: values "
+                                                      "beyond 2^53 round to the same number, so distinct keys compare equal"
+                                                      % (self.func.name, render(ini[0]), d.get("type")))
+                        continue
                     if ini:
                         i1 = strip(ini[0], casts=True)
                         if i1["kind"] == "MemberExpr":
@@ -119,6 +131,10 @@ class Comparator:
 
     def _side(self, n):
         """('a'|'b', field) for x->field, or ('const', v)."""
+        if any(y["kind"] in ("ImplicitCastExpr", "CStyleCastExpr") and y.get("castKind") == "IntegralToFloating" for y in walk(n)) \
+                and self._is_field(n):
+            raise Unordered("%s compares the 64-bit integer key %s as a floating-point value: values beyond 2^53 round to the same "
+                            "number, so distinct keys compare equal" % (self.func.name, render(n)))
         n = strip(n, casts=True)
         if n["kind"] == "MemberExpr":
             b = strip(kids(n)[0], casts=True)
@@ -136,11 +152,49 @@ class Comparator:
             return self.side_locals[n["ref"]["id"]]
         raise AnalysisBroken("comparator %s: unsupported operand %s" % (self.func.key, render(n)))
 
-    def _expr(self, n):
+    def _is_field(self, n):
+        n = strip(n, casts=True)
+        if n["kind"] == "MemberExpr":
+            b = strip(kids(n)[0], casts=True)
+            return b["kind"] == "DeclRefExpr" and b["ref"]["id"] in (self.pa, self.pb)
+        return n["kind"] == "DeclRefExpr" and n["ref"]["id"] in self.side_locals
+
+    def _num(self, n):
+        """integer value of an expression built from comparison outcomes (0 / 1), literals, locals holding such values and
+        + / - of them (the sign idiom (x > y) - (x < y)); arithmetic on the keys themselves stays Unordered"""
         n = strip(n, casts=True)
         k = n["kind"]
         if k == "IntegerLiteral":
-            return int(n["value"]) != 0
+            return int(n["value"])
+        if k == "UnaryOperator" and n.get("opcode") == "-":
+            return -self._num(kids(n)[0])
+        if k == "BinaryOperator" and n.get("opcode") in ("+", "-"):
+            if self._is_field(kids(n)[0]) or self._is_field(kids(n)[1]):
+                raise Unordered("%s decides by the arithmetic expression %s; for 64-bit keys this can overflow or be "
+                                "truncated, so the result is not determined by the ordering of the keys" % (self.func.name, render(n)))
+            a_, b_ = self._num(kids(n)[0]), self._num(kids(n)[1])
+            return a_ + b_ if n["opcode"] == "+" else a_ - b_
+        if k == "ConditionalOperator":
+            c, t, e = kids(n)[:3]
+            return self._num(t) if self._expr(c) else self._num(e)
+        if k == "DeclRefExpr" and n["ref"]["id"] in self.locals:
+            v = self.locals[n["ref"]["id"]]
+            if v is None:
+                raise AnalysisBroken("comparator %s reads an uninitialised local" % self.func.key)
+            return int(v)
+        v = self._expr(n)
+        return int(v)
+
+    def _expr(self, n):
+        n = strip(n, casts=True)
+        k = n["kind"]
+        if k == "BinaryOperator" and n.get("opcode") in ("+", "-") and not (self._is_field(kids(n)[0]) or self._is_field(kids(n)[1])):
+            try:
+                return self._num(n)
+            except AnalysisBroken:
+                pass
+        if k == "IntegerLiteral":
+            return int(n["value"])
         if k == "CXXBoolLiteralExpr":
             return bool(n.get("value"))
         if k == "DeclRefExpr":
@@ -163,6 +217,10 @@ class Comparator:
                 return self._expr(kids(n)[0]) and self._expr(kids(n)[1])
             if op == "||":
                 return self._expr(kids(n)[0]) or self._expr(kids(n)[1])
+            if op in ("<", ">", "<=", ">=", "==", "!=") and not (self._is_field(kids(n)[0]) or self._is_field(kids(n)[1])):
+                # a comparison of computed values (the outcome of earlier comparisons, literals): plain integers
+                a_, b_ = self._num(kids(n)[0]), self._num(kids(n)[1])
+                return {"<": a_ < b_, ">": a_ > b_, "<=": a_ <= b_, ">=": a_ >= b_, "==": a_ == b_, "!=": a_ != b_}[op]
             if op in ("<", ">", "<=", ">=", "==", "!="):
                 ls, rs = self._side(kids(n)[0]), self._side(kids(n)[1])
                 if ls[1] != rs[1]:
